@@ -238,4 +238,183 @@ Proof.
   intros i j t1 t2 l w1 a1 w2 a2 _ Ei. destruct i; discriminate.
 Qed.
 
+(* ------------------------------------------------------------------ how the monitor transforms holder sets *)
+
+Lemma In_give t m sh hs h :
+  In h (give t m sh hs) <-> h = HM m \/ (In h hs /\ (sh = true \/ h <> HT t)).
+Proof.
+  unfold Conc.give. destruct sh; simpl.
+  - split; [intros [<-|I]; auto | intros [->|[I _]]; auto].
+  - rewrite in_remove_iff. split; [intros [<-|[I N]]; auto | intros [->|[I [D|N]]]; auto; discriminate].
+Qed.
+
+Lemma In_take t m hs h :
+  In h (take t m hs) <->
+  (In (HM m) hs /\ (h = HT t \/ (In h hs /\ h <> HM m))) \/ (~ In (HM m) hs /\ In h hs).
+Proof.
+  unfold Conc.take. destruct (hmem (HM m) hs) eqn:M.
+  - apply hmem_true in M. simpl. rewrite in_remove_iff. split.
+    + intros [<-|[I N]]; left; auto.
+    + intros [[_ [->|[I N]]]|[N _]]; auto; contradiction.
+  - assert (N : ~ In (HM m) hs) by (intro I; apply hmem_true in I; congruence).
+    split; [intro I; right; auto | intros [[I _]|[_ I]]; [contradiction | exact I]].
+Qed.
+
+Lemma mon_run_app s p q :
+  mon_run s (p ++ q) = match mon_run s p with Some s' => mon_run s' q | None => None end.
+Proof.
+  revert s. induction p as [|e p IH]; intro s; simpl; [reflexivity|].
+  destruct (mon_step s e); [apply IH | reflexivity].
+Qed.
+
+(* a release with a payload of distinct locations, all held by the releasing thread, succeeds and acts pointwise *)
+Lemma rel_apply_spec t m : forall pl s,
+  NoDup (map fst pl) ->
+  (forall l sh, In (l, sh) pl -> exists hs, s l = Some hs /\ In (HT t) hs) ->
+  exists s', rel_apply s t m pl = Some s' /\
+    (forall l, ~ In l (map fst pl) -> s' l = s l) /\
+    (forall l sh, In (l, sh) pl -> exists hs, s l = Some hs /\ s' l = Some (give t m sh hs)).
+Proof.
+  induction pl as [|[l0 sh0] pl IH]; intros s ND H; simpl.
+  - exists s. repeat split; auto. intros l sh [].
+  - inversion ND as [|x xs NI ND' E]; subst.
+    destruct (H l0 sh0 (or_introl eq_refl)) as (hs0 & E0 & I0). rewrite E0.
+    assert (M : hmem (HT t) hs0 = true) by now apply hmem_true. rewrite M.
+    set (s1 := upd s l0 (Some (give t m sh0 hs0))).
+    assert (U : forall l, l <> l0 -> s1 l = s l).
+    { intros l N. unfold s1, Conc.upd. destruct (loc_dec l l0); [contradiction | reflexivity]. }
+    destruct (IH s1 ND') as (s' & R & A & B).
+    { intros l sh I. assert (N : l <> l0). { intro; subst. apply NI. apply (in_map fst) in I. exact I. }
+      rewrite (U _ N). apply (H l sh). now right. }
+    exists s'. split; [exact R|]. split.
+    + intros l N. simpl in N. rewrite A by tauto. apply U. intro; subst; tauto.
+    + intros l sh [E|I].
+      * inversion E; subst. exists hs0. split; [exact E0|]. rewrite A by exact NI.
+        unfold s1, Conc.upd. destruct (loc_dec l l); [reflexivity | contradiction].
+      * assert (N : l <> l0). { intro; subst. apply NI. apply (in_map fst) in I. exact I. }
+        destruct (B _ _ I) as (hs & E1 & E2). exists hs. split; [now rewrite <- (U _ N) | exact E2].
+Qed.
+
+(* a list of accesses that are all allowed leaves the monitor where it is *)
+Lemma mon_run_accs s p :
+  Forall (fun e => match e with Acc t l w a => acc_ok s t l w a = true | _ => False end) p ->
+  mon_run s p = Some s.
+Proof.
+  induction 1 as [|e p He _ IH]; simpl; [reflexivity|].
+  destruct e as [t l w a| |]; try contradiction. simpl. rewrite He. exact IH.
+Qed.
+
+(* ------------------------------------------------------------------ the monitor, one location at a time *)
+
+Definition acc_ok1 (o : option (list holder)) (t : tid) (w a : bool) : bool :=
+  match o with
+  | None => a
+  | Some hs => negb a && (if w then only (HT t) hs else hmem (HT t) hs)
+  end.
+
+Fixpoint rel1 (l : loc) (o : option (list holder)) (t : tid) (m : mid) (pl : list (loc * bool))
+  : option (option (list holder)) :=
+  match pl with
+  | [] => Some o
+  | (l', sh) :: rest =>
+      if loc_dec l' l
+      then match o with
+           | Some hs => if hmem (HT t) hs then rel1 l (Some (give t m sh hs)) t m rest else None
+           | None => None
+           end
+      else rel1 l o t m rest
+  end.
+
+Definition mon1 (l : loc) (o : option (list holder)) (e : event) : option (option (list holder)) :=
+  match e with
+  | Acc t l' w a => if loc_dec l' l then (if acc_ok1 o t w a then Some o else None) else Some o
+  | Rel t m pl => rel1 l o t m pl
+  | Acq t m => Some (match o with Some hs => Some (take t m hs) | None => None end)
+  end.
+
+Fixpoint mon1_run (l : loc) (o : option (list holder)) (p : trace) : option (option (list holder)) :=
+  match p with
+  | [] => Some o
+  | e :: p' => match mon1 l o e with Some o' => mon1_run l o' p' | None => None end
+  end.
+
+Lemma mon1_run_app l o p q :
+  mon1_run l o (p ++ q) = match mon1_run l o p with Some o' => mon1_run l o' q | None => None end.
+Proof.
+  revert o. induction p as [|e p IH]; intro o; simpl; [reflexivity|].
+  destruct (mon1 l o e); [apply IH | reflexivity].
+Qed.
+
+Lemma rel_apply_pointwise t m : forall pl s,
+  (forall l, rel1 l (s l) t m pl <> None) ->
+  exists s', rel_apply s t m pl = Some s' /\ forall l, rel1 l (s l) t m pl = Some (s' l).
+Proof.
+  induction pl as [|[l0 sh0] pl IH]; intros s H; simpl.
+  - exists s. split; auto.
+  - pose proof (H l0) as H0. simpl in H0. destruct (loc_dec l0 l0) as [_|N]; [|contradiction].
+    destruct (s l0) as [hs0|] eqn:E0; [|congruence].
+    destruct (hmem (HT t) hs0) eqn:M; [|congruence].
+    set (s1 := upd s l0 (Some (give t m sh0 hs0))).
+    destruct (IH s1) as (s' & R & P).
+    + intro l. specialize (H l). simpl in H. unfold s1, Conc.upd.
+      destruct (loc_dec l0 l) as [<-|N].
+      * destruct (loc_dec l0 l0); [|contradiction]. rewrite E0, M in H. exact H.
+      * destruct (loc_dec l l0) as [->|_]; [contradiction | exact H].
+    + exists s'. split; [exact R|]. intro l. specialize (P l). unfold s1, Conc.upd in P.
+      destruct (loc_dec l0 l) as [<-|N].
+      * destruct (loc_dec l0 l0); [|contradiction]. rewrite E0, M. exact P.
+      * destruct (loc_dec l l0) as [->|_]; [contradiction | exact P].
+Qed.
+
+Lemma mon_run_pointwise : forall p s,
+  (forall l, mon1_run l (s l) p <> None) -> mon_run s p <> None.
+Proof.
+  induction p as [|e p IH]; intros s H; simpl; [congruence|].
+  assert (ST : exists s', mon_step s e = Some s' /\ forall l, mon1 l (s l) e = Some (s' l)).
+  { destruct e as [t l0 w a | t m pl | t m]; simpl.
+    - pose proof (H l0) as H0. simpl in H0. destruct (loc_dec l0 l0); [|contradiction].
+      change (acc_ok s t l0 w a) with (acc_ok1 (s l0) t w a).
+      destruct (acc_ok1 (s l0) t w a) eqn:OK.
+      + exists s. split; [reflexivity|]. intro l. destruct (loc_dec l0 l) as [<-|]; [|reflexivity].
+        now rewrite OK.
+      + exfalso. apply H0. reflexivity.
+    - apply rel_apply_pointwise. intro l. specialize (H l). simpl in H.
+      destruct (rel1 l (s l) t m pl); congruence.
+    - exists (acq_apply s t m). split; [reflexivity|]. intro l. unfold Conc.acq_apply. destruct (s l); reflexivity. }
+  destruct ST as (s' & ST & P). rewrite ST. apply IH. intro l. specialize (H l). simpl in H. rewrite (P l) in H. exact H.
+Qed.
+
+(* events that cannot concern location l when its holders satisfy Hi *)
+Definition mentions (l : loc) (Hi : holder -> Prop) (e : event) : Prop :=
+  match e with
+  | Acc _ l' _ _ => l' = l
+  | Rel _ _ pl => In l (map fst pl)
+  | Acq _ m => Hi (HM m)
+  end.
+
+Lemma rel1_skip l o t m pl : ~ In l (map fst pl) -> rel1 l o t m pl = Some o.
+Proof.
+  induction pl as [|[l' sh] pl IH]; intro N; simpl; [reflexivity|].
+  simpl in N. destruct (loc_dec l' l); [tauto | apply IH; tauto].
+Qed.
+
+Lemma take_skip t m hs : ~ In (HM m) hs -> take t m hs = hs.
+Proof.
+  intro N. unfold Conc.take. destruct (hmem (HM m) hs) eqn:M; [|reflexivity].
+  apply hmem_true in M. contradiction.
+Qed.
+
+Lemma mon1_run_skip l (Hi : holder -> Prop) o p :
+  match o with Some hs => forall h, In h hs -> Hi h | None => True end ->
+  Forall (fun e => ~ mentions l Hi e) p -> mon1_run l o p = Some o.
+Proof.
+  intros B F. induction F as [|e p N _ IH]; simpl; [reflexivity|].
+  assert (E : mon1 l o e = Some o).
+  { destruct e as [t l' w a | t m pl | t m]; simpl in *.
+    - destruct (loc_dec l' l); [contradiction | reflexivity].
+    - now apply rel1_skip.
+    - destruct o as [hs|]; [|reflexivity]. rewrite take_skip; [reflexivity|]. intro I. apply N. now apply B. }
+  rewrite E. exact IH.
+Qed.
+
 End Proofs.
